@@ -51,12 +51,24 @@ class ShiftLsl(Constructor):
     patterns = {"shift_typ": 0, "shift_imm": n}
 
 
+class RightShiftAmount(Transform):
+    """A right shift is by 1 to 32 bits, 32 is encoded as 0."""
+
+    def forwards(self, value):
+        if value not in range(1, 33):
+            raise ValueError(f"shift amount {value} not in range 1..32")
+        return value % 32
+
+    def backwards(self, value):
+        return value if value else 32
+
+
 class ShiftLsr(Constructor):
     """Logical shift right n bits"""
 
     n = Operand("n", int)
     syntax = Syntax([",", " ", "lsr", " ", n])
-    patterns = {"shift_typ": 1, "shift_imm": n}
+    patterns = {"shift_typ": 1, "shift_imm": RightShiftAmount(n)}
 
 
 class ShiftAsr(Constructor):
@@ -64,7 +76,7 @@ class ShiftAsr(Constructor):
 
     n = Operand("n", int)
     syntax = Syntax([",", " ", "asr", " ", n])
-    patterns = {"shift_typ": 2, "shift_imm": n}
+    patterns = {"shift_typ": 2, "shift_imm": RightShiftAmount(n)}
 
 
 # Shift suffix:
